@@ -166,6 +166,71 @@ func checkC08(c *Ctx) {
 
 	c.checkCacheFollowsStore(nil)
 	c.checkReloadCoverage()
+	c.checkCacheAfterStore()
+	// the loader reconstructs the owner exactly as the live topic determines it (shared with C06)
+	c.checkOwnerWriters()
+}
+
+// checkCacheAfterStore: in a handler that persists a change, the mirrored topic fields are
+// assigned only on the success edge of a store write of that handler (never before the write).
+func (c *Ctx) checkCacheAfterStore() {
+	r := c.R
+	r.Floor("C08.5-cache-after-store", 3)
+	for _, fn := range c.P.ModFuncs {
+		if !core.InPkg(fn, "server") || !isPtrToNamedRecv(fn, "Topic") {
+			continue
+		}
+		var writes []ssa.CallInstruction
+		for _, w := range c.storeWriteSinks(fn) {
+			call, ok := w.(*ssa.Call)
+			if !ok {
+				continue
+			}
+			if f, _ := c.isStoreCall(call); f != nil && f.Name() == "LinkAttachments" {
+				continue
+			}
+			if ei := errIndex(call.Call.Signature()); ei >= 0 && errValue(call, ei) != nil {
+				writes = append(writes, call)
+			}
+		}
+		if len(writes) == 0 {
+			continue
+		}
+		core.AllInstrs(fn, func(in ssa.Instruction) {
+			st, ok := in.(*ssa.Store)
+			if !ok {
+				return
+			}
+			m, what := c.isCacheMutation(in)
+			if !m {
+				return
+			}
+			// counters and the owner are tied to exactly one write of their handler; description,
+			// tags and default access are assigned under map-key tests that correlate with the write
+			// (value-level correlation: not decided here, the failure path is C08.1's business)
+			if !(strings.Contains(what, "lastID") || strings.Contains(what, "delID") || strings.Contains(what, "owner")) {
+				return
+			}
+			r.Func(fk(fn))
+			// every path to the mutation passes a store write of this handler (what happens after a
+			// failed write is decided by C08.1)
+			isWrite := func(x ssa.Instruction) bool {
+				for _, w := range writes {
+					if x == w.(ssa.Instruction) {
+						return true
+					}
+				}
+				return false
+			}
+			before, _ := core.PathAvoiding(fn, nil, func(x ssa.Instruction) bool { return x == in }, isWrite, nil)
+			ok2 := !before
+			construct := fmt.Sprintf("%s: %s only after a successful store write", fk(fn), what)
+			if n := countSame(r, "C08.5-cache-after-store", construct); n > 0 {
+				construct = fmt.Sprintf("%s #%d", construct, n+1)
+			}
+			r.Check(ok2, "C08.5-cache-after-store", construct, c.pos(st), "", "mirrored topic state is changed before (or regardless of) the store write of the same handler: if the write fails the live topic and the store diverge")
+		})
+	}
 }
 
 func countSame(r *core.Report, rule, construct string) int {
